@@ -2,6 +2,7 @@
 floating-point contraction code exact, injected propagators, hand-built PTs."""
 import contextlib
 import io
+import os
 import numpy as np
 
 import oqupy
@@ -111,11 +112,33 @@ def rand_intpt(rng, hs_dim, nsteps, maxbond=3, allow_rank3=True, transforms=Fals
     return IntPT(hs_dim, mpos, caps, tin, tout)
 
 
+class LibraryCallTimeout(Exception):
+    """a call into the library under test did not return within LIBRARY_CALL_LIMIT seconds (on the unchanged tree every such
+    call takes seconds): the input of that call is reported as a failing input by the drivers' `except Exception` branches"""
+
+
+LIBRARY_CALL_LIMIT = float(os.environ.get("VERIF_CALL_LIMIT", "600"))
+
+
 def quiet(fn, *a, **k):
-    """run fn swallowing stdout (the library prints in places)."""
+    """run fn swallowing stdout (the library prints in places), under a generous wall-clock limit (main thread only)."""
+    import signal, threading
+    guard = LIBRARY_CALL_LIMIT > 0 and threading.current_thread() is threading.main_thread() and hasattr(signal, "setitimer")
+    if guard:
+        def on_alarm(signum, frame):
+            raise LibraryCallTimeout(f"the library call did not return within {LIBRARY_CALL_LIMIT:.0f} s")
+        old_handler = signal.signal(signal.SIGALRM, on_alarm)
+        outer_left = signal.setitimer(signal.ITIMER_REAL, LIBRARY_CALL_LIMIT)[0]
     buf = io.StringIO()
-    with contextlib.redirect_stdout(buf):
-        return fn(*a, **k)
+    try:
+        with contextlib.redirect_stdout(buf):
+            return fn(*a, **k)
+    finally:
+        if guard:
+            signal.setitimer(signal.ITIMER_REAL, 0)
+            signal.signal(signal.SIGALRM, old_handler)
+            if outer_left > 0:
+                signal.setitimer(signal.ITIMER_REAL, outer_left)      # an enclosing quiet() keeps its own limit
 
 
 def mat_lit(m):
